@@ -337,6 +337,9 @@ def _unary(interp, name, args, kw, st, node):
         term = T(base, x.term) if len(args) == 1 and not [k for k in kw if k != "out"] else T(base, x.term, *[a.term for a in args[1:]], *[T("kw", k, v.term) for k, v in sorted(kw.items()) if k != "out"])
     sh = shape(x)
     dtype = "bool" if base in ("isnan", "isfinite", "isinf", "logical_not") else None
+    if base == "spacing" and isinstance(x.term, Term) and x.term.op == "mcall" and len(x.term.args) >= 3 and x.term.args[1] == "type" and isinstance(x.term.args[0], Term) and x.term.args[0].op == "dtype" and len(x.term.args[2]) == 1 and x.term.args[2][0] in (1, const(1)):
+        # np.spacing(X.dtype.type(1)): the machine epsilon of X's floating-point type, np.finfo(X.dtype).eps
+        return V("float", T("eps", x.term.args[0]), shape=(), labels=x.labels)
     if base == "spacing" and x.kind == "unk":
         return V("float", term, shape=(), labels=x.labels)
     if x.kind == "arr" or sh not in ((), None):
@@ -1708,9 +1711,25 @@ def sp_lse(interp, name, args, kw, st, node):
     return V("arr", T("lse", x.term), shape=(), labels=x.labels, orig=frozenset([FRESH]), loc=fresh_id())
 
 
+def _float_dtype_of(t):
+    """the array whose floating-point type a dtype expression denotes: X.dtype, X.real.dtype,
+    np.result_type(X.dtype, <a narrower float type>) - or None"""
+    if not isinstance(t, Term):
+        return None
+    if t.op == "dtype" and len(t.args) == 1:
+        return t.args[0]
+    if t.op == "call" and t.args and str(t.args[0]).endswith("result_type") and len(t.args) >= 2 and isinstance(t.args[1], tuple) and t.args[1]:
+        inner = _float_dtype_of(t.args[1][0])
+        rest = [repr(z) for z in t.args[1][1:]]
+        if inner is not None and all(("float16" in z or "half" in z) for z in rest):
+            return inner
+    return None
+
+
 @reg("numpy.finfo")
 def np_finfo(interp, name, args, kw, st, node):
-    return V("unk", T("finfo"))
+    of = _float_dtype_of(args[0].term) if args else None
+    return V("unk", T("finfo", T("dtype", of)) if of is not None else T("finfo"))
 
 
 @reg("numpy.allclose", "numpy.array_equal", "numpy.isclose")
@@ -2331,6 +2350,8 @@ def is_known_method(name):
 
 def ext_attribute(interp, base, name, st, node):
     """attribute of an external / unknown object: either a data attribute or a method"""
+    if name == "eps" and isinstance(base.term, Term) and base.term.op == "finfo" and len(base.term.args) == 1:
+        return V("float", T("eps", base.term.args[0]), shape=(), labels=base.labels)
     info = base.extra if isinstance(base.extra, dict) else {}
     hook = interp.config.get("attr_hook")
     if hook is not None:
